@@ -4,6 +4,8 @@ stdin: {"cases": [...]}
   cms case:     {"kind": "cms", "depth", "width", "seed", "items": [["i", int] | ["s", str]],
                  "ops": [["add", item index, delta] | ["batch", [item index ...], delta]]}
   counter case: {"kind": "counter", "bound", "items": [...], "ops": [["add", idx] | ["batch", [idx ...]]]}
+  pipeline case: {"kind": "pipeline", "bound", "batches": [{column: [cell ...]} ...]}  -- core_ranking.compute_cardinalities
+                 is called once per mini-batch; GLOBAL_COUNTS_STORAGE[column].default_counter is recorded after each.
 stdout: one line  @@RESULT <json>.
 
 For a cms case the hash oracle  loc[i][x] = cms_hash(item x, hash_seeds[i], width)  is tabulated from the
@@ -24,7 +26,11 @@ def mkitem(spec):
 def run_cms(case):
     items = [mkitem(s) for s in case["items"]]
     np.random.seed(case["seed"])
-    cms = CountMinSketch(case["depth"], case["width"])
+    if case.get("M0") is not None:      # a pre-filled matrix handed to the constructor (e.g. a merged sketch)
+        cms = CountMinSketch(case["depth"], case["width"], M=np.array(case["M0"], dtype=np.int32))
+    else:
+        cms = CountMinSketch(case["depth"], case["width"])
+    spread = 0
     obs = []
     err = None
     loc = None
@@ -38,6 +44,10 @@ def run_cms(case):
             M = np.asarray(cms.get_matrix())
             nz = np.nonzero(M)
             cells = [[int(i), int(j), int(M[i, j])] for i, j in zip(nz[0].tolist(), nz[1].tolist())]
+            if loc:
+                for n in range(len(items)):
+                    pr = [int(M[i, loc[i][n]]) for i in range(cms.depth)]
+                    spread = max(spread, max(pr) - min(pr))
             qs = []
             for x in items:
                 try:
@@ -48,7 +58,7 @@ def run_cms(case):
                         "shape": list(M.shape)})
     except Exception as e:
         err = "%s: %s" % (type(e).__name__, e)
-    return {"ok": err is None, "error": err, "loc": loc, "obs": obs,
+    return {"ok": err is None, "error": err, "loc": loc, "obs": obs, "probe_spread": spread,
             "seeds": [int(s) for s in cms.hash_seeds.tolist()]}
 
 
@@ -72,8 +82,38 @@ def run_counter(case):
     return {"ok": err is None, "error": err, "obs": obs}
 
 
+class _Bar:
+    def set_description(self, *a, **k):
+        pass
+
+
+def _key(k):
+    return k if isinstance(k, str) else int(k)
+
+
+def run_pipeline(case):
+    """The counter as the ranking pipeline feeds it: core_ranking.compute_cardinalities over a history of mini-batches."""
+    import pandas as pd
+    import outrank.core_ranking as cr
+    cr.GLOBAL_COUNTS_STORAGE.clear()
+    cr.GLOBAL_CARDINALITY_STORAGE.clear()
+    obs = []
+    err = None
+    try:
+        for batch in case["batches"]:
+            df = pd.DataFrame(batch)
+            cr.compute_cardinalities(df, _Bar(), case["bound"])
+            obs.append({col: [[_key(k), int(v)] for k, v in cr.GLOBAL_COUNTS_STORAGE[col].default_counter.items()]
+                        for col in df.columns})
+    except Exception as e:
+        err = "%s: %s" % (type(e).__name__, e)
+    cr.GLOBAL_COUNTS_STORAGE.clear()
+    cr.GLOBAL_CARDINALITY_STORAGE.clear()
+    return {"ok": err is None, "error": err, "obs": obs}
+
+
 out = []
 for case in payload["cases"]:
-    out.append(run_cms(case) if case["kind"] == "cms" else run_counter(case))
+    out.append(run_cms(case) if case["kind"] == "cms" else (run_counter(case) if case["kind"] == "counter" else run_pipeline(case)))
 dflt = PrimitiveConstrainedCounter()
 print("@@RESULT " + json.dumps({"results": out, "default_bound": int(dflt.max_bound_thr)}))
